@@ -270,11 +270,21 @@ Section Frames.
       destruct (tinsert _ _ _ v); calls_close.
     Qed.
 
-    Lemma native_minmax_ok less it kf s : frames_ok s -> nres_ok (native_minmax F P reenter self less it kf s).
+    Lemma snapshot_calls s t s' ct : snapshot F s t = Some (s', ct) -> st_calls s' = st_calls s.
     Proof.
-      intros Hs. unfold native_minmax. destruct it; try calls_close.
-      destruct (hget (st_heap s) a) as [[t| | | | |]|]; try calls_close.
-      destruct (titer _ t) as [[|[k0 v0] rest]|]; try calls_close.
+      unfold snapshot. destruct (titer _ t) as [l|]; [|discriminate].
+      destruct (salloc s _) as [s1 c] eqn:E1. destruct (insert_pairs _ _ l) as [ct'|]; [|discriminate].
+      intros H. injection H as <- <-. apply salloc_calls in E1. cbn. exact E1.
+    Qed.
+
+    Lemma native_minmax_ok less it kf s0 : frames_ok s0 -> nres_ok (native_minmax F P reenter self less it kf s0).
+    Proof.
+      intros Hs0. unfold native_minmax. destruct it; try calls_close.
+      destruct (hget (st_heap s0) a) as [[t| | | | |]|]; try calls_close.
+      destruct (snapshot F s0 t) as [[s entries]|] eqn:Esn; [|calls_close].
+      assert (Hs : frames_ok s) by (apply snapshot_calls in Esn; unfold frames_ok; rewrite Esn; exact Hs0).
+      clear Esn.
+      destruct (titer _ entries) as [[|[k0 v0] rest]|]; try calls_close.
       destruct (spush s v0) as [s1|] eqn:E1; [|calls_close].
       destruct (spush s1 k0) as [s2|] eqn:E2; [|calls_close].
       assert (H2 : frames_ok s2) by calls_close.
@@ -282,8 +292,7 @@ Section Frames.
       destruct (run_function P reenter self kf s2) as [key0 s3|e s3|ab s3]; cbn [nres_ok] in H; try exact H.
       pose proof (@minmax_go_ok less kf rest 1 0 key0 s3 H) as Hm.
       destruct (minmax_go F P reenter self less kf rest 1 0 key0 s3) as [i s4|r]; [|exact Hm].
-      destruct (hget (st_heap s4) a) as [[t'| | | | |]|]; try (cbn [nres_ok]; exact Hm).
-      destruct (tget _ t' _); [|cbn [nres_ok]; exact Hm].
+      destruct (tget _ entries _); [|cbn [nres_ok]; exact Hm].
       apply make_row_ok. exact Hm.
     Qed.
 
@@ -303,11 +312,14 @@ Section Frames.
       destruct (sort_keys P reenter self kf rest s3); exact IH.
     Qed.
 
-    Lemma native_sorted_ok it kf s : frames_ok s -> nres_ok (native_sorted F P reenter self it kf s).
+    Lemma native_sorted_ok it kf s0 : frames_ok s0 -> nres_ok (native_sorted F P reenter self it kf s0).
     Proof.
-      intros Hs. unfold native_sorted. destruct it; try calls_close.
-      destruct (hget (st_heap s) a) as [[t| | | | |]|]; try calls_close.
-      destruct (titer _ t) as [l|]; [|calls_close].
+      intros Hs0. unfold native_sorted. destruct it; try calls_close.
+      destruct (hget (st_heap s0) a) as [[t| | | | |]|]; try calls_close.
+      destruct (snapshot F s0 t) as [[s entries]|] eqn:Esn; [|calls_close].
+      assert (Hs : frames_ok s) by (apply snapshot_calls in Esn; unfold frames_ok; rewrite Esn; exact Hs0).
+      clear Esn.
+      destruct (titer _ entries) as [l|]; [|calls_close].
       pose proof (@sort_keys_ok kf l s Hs) as Hk.
       destruct (sort_keys P reenter self kf l s) as [keyed s1|r]; [|exact Hk].
       destruct (stable_sort _ _ _ _); [|cbn [nres_ok]; exact Hk].
@@ -490,11 +502,12 @@ Section Frames.
                 | |- context [match ?x with _ => _ end] => destruct x eqn:?
                 end; calls_close.
   Qed.
-  Lemma i_46_ok : forall opc ip0 ip s, frames_ok s -> sres_ok (i_46 opc ip0 ip s).
+  Lemma i_46_ok : forall opc ip0 ip s, frames_ok s -> sres_ok (i_46 P opc ip0 ip s).
   Proof.
-    intros opc ip0 ip s Hs; unfold i_46.
-    destruct (scount s =? 0); [calls_close|].
-    pose proof (close_upvalues_from_calls (scount s - 1) s) as Hcl.
+    intros opc ip0 ip s Hs; unfold i_46; cbv zeta.
+    destruct (op_u32 P ip) as [idx|]; [|calls_close].
+    destruct (top_offset s) as [off|]; [|calls_close].
+    pose proof (close_upvalues_from_calls (off + N.to_nat idx) s) as Hcl.
     destruct (close_upvalues_from _ _); calls_close.
   Qed.
 
